@@ -280,3 +280,60 @@ def guards_of(cfg, b):
                     break
         n = p
     return out
+
+
+def reaching_defs(cf, lid):
+    """may-reaching definitions of local `lid`: returns (IN, OUT, defs) with
+    IN/OUT: block -> set of def node ids; defs: id -> (block, index, node).
+    Plain assignments and initialised declarations kill; compound
+    assignments / ++ -- add a definition without killing."""
+    defs = {}
+    per_block = {}
+    for b, i, s in cf.positions():
+        for n in sx.walk(s):
+            k = None
+            if n[0] == 'assign' and sx.kind(sx.strip_paren(n[1])) == 'local' and sx.strip_paren(n[1])[2] == lid:
+                k = 'kill'
+            elif n[0] == 'cassign' and sx.kind(sx.strip_paren(n[2])) == 'local' and sx.strip_paren(n[2])[2] == lid:
+                k = 'add'
+            elif n[0] == 'inc' and sx.kind(sx.strip_paren(n[3])) == 'local' and sx.strip_paren(n[3])[2] == lid:
+                k = 'add'
+            elif n[0] == 'decls':
+                for d in n[1]:
+                    if d[0] == 'decl' and d[2] == lid and d[3] is not None:
+                        defs[id(d)] = (b, i, ['assign', ['local', d[1], d[2]], d[3]])
+                        per_block.setdefault(b, []).append((i, 'kill', id(d)))
+                continue
+            if k:
+                defs[id(n)] = (b, i, n)
+                per_block.setdefault(b, []).append((i, k, id(n)))
+    IN, OUT = {}, {}
+    order = cf._rpo(cf.entry, cf.succ)
+    changed = True
+    while changed:
+        changed = False
+        for b in order:
+            inn = set()
+            for p in cf.pred[b]:
+                inn |= OUT.get(p, set())
+            cur = set(inn)
+            for i, k, d in sorted(per_block.get(b, []), key=lambda t: t[0]):
+                if k == 'kill':
+                    cur = {d}
+                else:
+                    cur = cur | {d}
+            if IN.get(b) != inn or OUT.get(b) != cur:
+                IN[b], OUT[b] = inn, cur
+                changed = True
+    return IN, OUT, defs, per_block
+
+
+def defs_at(cf, lid, b, i, rd=None):
+    """definitions of lid that may reach position (b, i)"""
+    IN, OUT, defs, per_block = rd or reaching_defs(cf, lid)
+    cur = set(IN.get(b, set()))
+    for j, k, d in sorted(per_block.get(b, []), key=lambda t: t[0]):
+        if j >= i:
+            break
+        cur = {d} if k == 'kill' else cur | {d}
+    return cur, defs
